@@ -178,6 +178,14 @@ def cli_run(job):
     return {'config': cfg, 'seed': seed, 'threads': threads, 'rep': rep, 'rc': rc, 'rows': obs, 'stderr': se[-600:] if rc != 0 else ''}
 
 
+def base_or_violation(ctx, cfg, W):
+    ok, res = safe(run_schedule, cfg, W, ())
+    if not ok:
+        ctx.stats.violation({'kind': 'schedule', 'config': cfg, 'W': W, 'schedule': []}, f'{cfg}: ranking task raised {res} under the sequential schedule with W={W}', {'kind': 'exception', 'config': cfg})
+        return None
+    return res
+
+
 def run(ctx):
     # (i) virtual pool
     jobs = []
@@ -185,7 +193,10 @@ def run(ctx):
     limit = 20000 if ctx.thorough else 1500
     for cfg in ('target', 'ratio', 'noise', 'pairwise'):
         for W in (1, 2, 3):
-            base, k, _ = run_schedule(cfg, W, ())
+            res0 = base_or_violation(ctx, cfg, W)
+            if res0 is None:
+                continue
+            base, k, _ = res0
             n_all = sum(1 for _ in itertools.islice(vpool.schedules(k, W), limit + 1))
             if n_all <= limit:
                 scheds = list(vpool.schedules(k, W))
@@ -204,15 +215,22 @@ def run(ctx):
         c = CONFIGS[cfg]
         over = dict(c['over'])
         over['include_cardinality_in_feature_names'] = 'False'
-        inl = observe(pipeline.run_task(data_text(16, c['cols']), over))
-        v1 = run_schedule(cfg, 1, ())[0]
+        ok_i, inl = safe(lambda: observe(pipeline.run_task(data_text(16, c['cols']), over)))
+        r1 = base_or_violation(ctx, cfg, 1)
+        if not ok_i or r1 is None:
+            if not ok_i:
+                ctx.stats.violation({'kind': 'schedule', 'config': cfg, 'W': 1, 'schedule': [], 'inline': True}, f'{cfg}: ranking task raised {inl} with the in-process pool', {'kind': 'exception', 'config': cfg})
+            continue
+        v1 = r1[0]
         ctx.stats.count('evaluations')
         if inl != v1:
             ctx.stats.violation({'kind': 'schedule', 'config': cfg, 'W': 1, 'schedule': [], 'inline': True},
                                 f'{cfg}: one isolated worker process gives a result different from in-process evaluation (process-local state leaks into the scores)', {'kind': 'worker_state_dependent', 'config': cfg})
-    base1 = run_schedule('target', 1, ())[0]
+    b1 = base_or_violation(ctx, 'target', 1)
+    base1 = b1[0] if b1 else None
     for W in (2, 3):
-        if run_schedule('target', W, ())[0]['pairwise'] != base1['pairwise']:
+        bw = base_or_violation(ctx, 'target', W) if base1 else None
+        if bw and bw[0]['pairwise'] != base1['pairwise']:
             ctx.stats.violation({'kind': 'schedule', 'config': 'target', 'W': W, 'schedule': []}, f'sequential result with W={W} differs from W=1', {'kind': 'pool_size_dependent'})
     for st in pmap(_sched_job, jobs):
         ctx.stats.merge(st)
